@@ -50,6 +50,13 @@ def gate_specs() -> dict[str, dict[str, Any]]:
         # released the last thing that happens in the workflow is a SkipStage
         "gate-skip-under-firstof": {"name": "gate-skip-under-firstof", "stages": [stage("a", [], [ok()]), stage("b", ["a"], [ok()]), stage("g", ["a"], [g()]),
                                                                                     stage("k", ["g"], [ok()], enabled=False), stage("j", ["b", "k"], [ok()], join="DISC")], "gates": ["g"]},
+        # the gate sits behind a retry loop: the jump back re-arms everything downstream of its target, the not yet started
+        # gate (and a persistent signal already buffered on it) included
+        "gate-after-loop": {"name": "gate-after-loop", "stages": [stage("a", [], [ok()]), stage("r", ["a"], [{"b": "jump", "to": "a", "j": 1, "emit": []}]),
+                                                                    stage("g", ["r"], [g()]), stage("z", ["g"], [ok()])], "gates": ["g"]},
+        # the gate is the target of a forward jump (re-armed by the jump before it ever ran)
+        "gate-jump-target": {"name": "gate-jump-target", "stages": [stage("a", [], [{"b": "jump", "to": "g", "j": 1, "emit": []}]), stage("b", ["a"], [ok()]),
+                                                                      stage("g", ["b"], [g()]), stage("z", ["g"], [ok()])], "gates": ["g"]},
         "two-gates": {"name": "two-gates", "stages": [stage("a", [], [ok()]), stage("g", ["a"], [g()]), stage("h", ["g"], [g(), ok()]), stage("z", ["h"], [ok()])],
                       "gates": ["g", "h"]},
     }
